@@ -162,6 +162,9 @@ def corpus():
         ('wait-in-nested', dict(classes=[[S(['x1', 'o'])], [S(['a'], 'wait'), S(['o'])]], cbs=[], top=[0, 0])),
         ('out-continue-raise', dict(classes=[[S(['u', 'a', 'u'], 'next'), S(['a'], 'raise')]], cbs=[], top=[0, 0])),
         ('child-of-nested', dict(classes=[[S(['x1', 'a'])], [S(['l2', 'a'])], [S(['a', 'o'])]], cbs=[], top=[0])),
+        ('external-callback', dict(classes=[[S(['a', 'o'])]], cbs=[['o', 'a', 'o']], top=[0], ext=[[0, 0]])),
+        ('external-callbacks+peer', dict(classes=[[S(['a'])], [S(['a', 'o'])]], cbs=[['o']], top=[0, 1], ext=[[0, 0], [1, 0]])),
+        ('external-callback-in-nested', dict(classes=[[S(['x1', 'o'])], [S(['a'])]], cbs=[['a', 'o']], top=[0], ext=[[0, 0]])),
         ('sync-steps-only', dict(classes=[[S(['o', 'u', 'l1', 'x1', 'c0'], 'next'), S(['o'])], [S(['o'])]], cbs=[['o']], top=[0, 0])),
     ]
     return out
@@ -226,8 +229,10 @@ def random_scenario(rng, big=False):
         classes.append(steps)
     cbs = [random_code(rng, 0, n_classes, n_cbs, in_cb=True, cb_index=j, max_len=4) for j in range(n_cbs)]
     top = [rng.randrange(n_classes) for _ in range(rng.randint(1, 4))]
-    return dict(classes=classes, cbs=cbs, top=top)
+    ext = [[rng.randrange(len(top)), rng.randrange(n_cbs)] for _ in range(rng.choice([0, 0, 1, 2]))] if n_cbs else []
+    return dict(classes=classes, cbs=cbs, top=top, ext=ext)
 
 
 def scenario_size(scn):
-    return sum(len(st['code']) + 1 for c in scn['classes'] for st in c) + sum(len(c) for c in scn['cbs']) + len(scn['top'])
+    return (sum(len(st['code']) + 1 for c in scn['classes'] for st in c) + sum(len(c) + 1 for c in scn['cbs']) + len(scn['top'])
+            + len(scn.get('ext', [])))
